@@ -153,7 +153,9 @@ def build_canonical_spec(
     for declaration_index, raw in enumerate(spec):
         declaration_subindex = 0
         cfg = preprocess_node_config(dict(raw))
-        params = resolve_parameters(cfg.get("parameters", {}))
+        # ``parameters:`` left empty in YAML loads as None; it means "no parameters",
+        # exactly like an omitted or ``{}`` block, and must hash the same.
+        params = resolve_parameters(cfg.get("parameters") or {})
         cfg["parameters"] = params
         resolved.append(cfg)
         canon = _canonical_node(cfg, declaration_index, declaration_subindex)
